@@ -216,6 +216,12 @@ func build(cfg *CheckCfg) (*buildOut, error) {
 			timeshim[f] = true
 		}
 	}
+	swapr := map[string]bool{}
+	for _, g := range cfg.Instrument {
+		for _, f := range glob(g) {
+			swapr[f] = true
+		}
+	}
 	selr := map[string]bool{}
 	for _, g := range cfg.Selects {
 		for _, f := range glob(g) {
@@ -256,7 +262,7 @@ func build(cfg *CheckCfg) (*buildOut, error) {
 		if err != nil {
 			return nil, err
 		}
-		out, st, err := instrument(f, src, instOpts{net: netshim[f], time: timeshim[f], mapRanges: mapr[f], mapSites: sites[f], selects: selr[f], extra: cfg.Extra})
+		out, st, err := instrument(f, src, instOpts{net: netshim[f], time: timeshim[f], mapRanges: mapr[f], mapSites: sites[f], selects: selr[f], swap: swapr[f], extra: cfg.Extra})
 		if err != nil {
 			return nil, fmt.Errorf("instrument %s: %v", f, err)
 		}
